@@ -139,10 +139,39 @@ def run_translators(meta, log):
     return res
 
 
+def sources_key(files):
+    h = hashlib.sha256()
+    for f in files:
+        h.update(f.encode()); h.update(b"\0")
+        h.update(open(os.path.join(COQ, f), "rb").read()); h.update(b"\0")
+    return h.hexdigest()
+
+
 def build_props(pid, meta, log, jobs=16):
-    """Build Props/<pid>.vo from scratch of that file; returns dict."""
+    """Build Props/<pid>.vo (always recompiling that file, to capture Print Assumptions), unless an
+    identical set of Coq sources (hand-written and regenerated) was already checked successfully."""
     r = {"ok": False, "theorems": [], "assumptions": {}, "reason": "", "checker_cmd": ""}
     files = ensure_makefile()
+    key = sources_key(files)
+    cpath = os.path.join(V, ".cache", "props", pid + ".json")
+    model_vo0 = os.path.join(COQ, meta["model_module"].replace(".", "/") + ".vo")
+    try:
+        c = json.load(open(cpath))
+        if c.get("key") == key and c["result"].get("ok") and os.path.exists(model_vo0) and os.path.exists(os.path.join(COQ, "Base", "Verdict.vo")) \
+           and os.path.exists(os.path.join(COQ, "Props", pid + ".vo")):
+            log.append("proofs: sources unchanged since the last successful build (sha256 %s), result reused" % key[:12])
+            return c["result"]
+    except Exception:
+        pass
+    r = _build_props(pid, meta, log, jobs, files)
+    if r.get("ok"):
+        os.makedirs(os.path.dirname(cpath), exist_ok=True)
+        json.dump({"key": key, "result": r}, open(cpath, "w"))
+    return r
+
+
+def _build_props(pid, meta, log, jobs, files):
+    r = {"ok": False, "theorems": [], "assumptions": {}, "reason": "", "checker_cmd": ""}
     bad = audit_sources(files)
     if bad:
         r["reason"] = "forbidden vernacular: " + ", ".join("%s:%d:%s" % b for b in bad[:5])
